@@ -157,7 +157,11 @@ class Outcome:
 
 def outcome(f, *args, **kwargs):
     try:
-        return Outcome(value=f(*args, **kwargs))
+        v = f(*args, **kwargs)
+        if hasattr(v, "send") and hasattr(v, "cr_frame"):  # a coroutine: run it to completion
+            import asyncio
+            v = asyncio.run(v)
+        return Outcome(value=v)
     except AssumeFailed:
         raise
     except Exception as e:  # noqa: BLE001  (the point is to observe it)
@@ -199,3 +203,11 @@ def opaque(name):
 
 def note(*a):
     pass
+
+
+def new_object(cls, **attrs):
+    """An instance of `cls` made without running __init__, with the given attributes."""
+    o = object.__new__(cls)
+    for k, v in attrs.items():
+        object.__setattr__(o, k, v)
+    return o
